@@ -293,9 +293,9 @@ impl<'de, 't, 'a> de::Deserializer<'de> for &'a mut Deserializer<'de, 't> {
                     ..self.clone()
                 };
                 if let Type::Record(_) = **typ {
-                    deserializer.deserialize_enum("", &[], visitor)
-                } else {
                     deserializer.deserialize_map(visitor)
+                } else {
+                    deserializer.deserialize_enum("", &[], visitor)
                 }
             }
             ValueRef::Float(_) => self.deserialize_f64(visitor),
@@ -550,6 +550,13 @@ impl<'de, 't, 'a> de::Deserializer<'de> for &'a mut Deserializer<'de, 't> {
                     self.state.clone(),
                     values.as_ref().iter().map(|variant| (variant, &args[0])),
                 )),
+            // A tuple (or tuple struct) is a record whose fields are read in order
+            (ValueRef::Data(data), &Type::Record(ref row)) => {
+                let iter = (0..data.len())
+                    .map(|i| data.get_variant(i).unwrap())
+                    .zip(row.row_iter().map(|field| &field.typ));
+                visitor.visit_seq(SeqDeserializer::new(self.state.clone(), iter))
+            }
             (ValueRef::Data(data), &Type::Variant(ref row)) => {
                 match row.row_iter().nth(data.tag() as usize) {
                     Some(field) => {
